@@ -90,6 +90,11 @@ fam07 = [
     {'op': 'monitor', 'from': A, 'to': P, 'ref': R, 'expect_frame': passthrough(etuple([eint(19), epid(A), epid(P), eref(R)]))},
     {'op': 'demonitor', 'from': A, 'to': P, 'ref': R, 'expect_frame': passthrough(etuple([eint(20), epid(A), epid(P), eref(R)]))},
  ]}},
+ # distribution-header mode: what the header writer emits is read by the replay crate's independent header reader
+ # (even and odd numbers of distinct atoms: the flag field's length depends on the parity)
+ {'scenario': 'dist_header_write', 'input': {'term': {'tuple': [{'atom': 'a'}, {'atom': 'b'}]}, 'atoms': ['a', 'b']}},
+ {'scenario': 'dist_header_write', 'input': {'term': {'tuple': [{'atom': 'a'}, {'atom': 'b'}, {'atom': 'c'}, {'atom': 'd'}]}, 'atoms': ['a', 'b', 'c', 'd']}},
+ {'scenario': 'dist_header_write', 'input': {'term': {'atom': 'a'}, 'atoms': ['a']}},
 ]
 p = json.load(open('/verif/props.json'))
 p['C07']['witness_search'] = fam07
